@@ -326,17 +326,28 @@ def closed_form(fn, k, seed, ns, p0, multinom, eps, dseed, nboot, log=False, nes
     central = all((v != 0 and not (v * 2 * eps < 1e-6)) for v in qdiff)
     if conds > 1e6 or not np.all(np.isfinite(Rc)):
         return {'ok': True, 'skipped': 'ill-conditioned closed form (cond %.3g)' % conds, 'what': 'closed form ' + fn}
-    if condn * (10 * eps ** 2 if central else eps) >= 0.5:
+    # relative nonlinearity of the log-likelihood over the stencil: the step in parameter j changes the model by h_j*dM/dq_j,
+    # which must be small against the model itself, or the Taylor expansion behind any O(eps^p) statement has not set in
+    Mq, Aq, _ = _derivs(lin, q, multinom)
+    um = lin.unmasked(data)
+    steps, _one = _steps(list(qdiff), eps)
+    sel = list(nested) if (nested is not None and fn in ('LRT', 'Wald', 'score')) else list(range(len(q)))
+    rnl = 0.0
+    for hj, j in zip(steps, sel):
+        dM = np.abs(Aq[j][um]) * (abs(q[j]) if (log and fn in ('FIM', 'GIM')) else 1.0)
+        rnl = max(rnl, float(np.max(4 * abs(hj) * dM / np.abs(Mq[um]))))       # 4*h: eps, 2*eps and 4*eps are all evaluated
+    trunc = max(10 * eps ** 2, rnl ** 2) if central else max(eps, rnl)
+    if condn * trunc >= 0.5:
         # the finite-difference result is in its pre-asymptotic regime (conditioning x truncation error >= 1/2): neither
         # the O(eps^p) statement nor any a-posteriori bound says anything here
-        return {'ok': True, 'skipped': 'pre-asymptotic (scaled cond %.3g x truncation %.3g)' % (condn, (10 * eps ** 2 if central else eps)),
+        return {'ok': True, 'skipped': 'pre-asymptotic (scaled cond %.3g x truncation %.3g)' % (condn, trunc),
                 'what': 'closed form ' + fn}
     if R1.shape != Rc.shape:
         return {'ok': False, 'what': 'closed form ' + fn, 'shape': [list(R1.shape), list(Rc.shape)]}
     ok, out = _gate(R1, R2, Rc, eps, conds, central, R4)
     # amplification of the stencil's relative truncation error by the conditioning of H and J: the a-posteriori
     # bound and the order test are asymptotic statements, only meaningful while amp << 1
-    amp = condn * (10 * eps ** 2 if central else eps)
+    amp = condn * trunc
     out['amp'] = amp
     if out.get('order_fail') and amp >= 0.02:
         out.pop('order_fail')
